@@ -60,6 +60,9 @@ def seq_of(fn, e, depth=0, upto=None):
         if ("into_vec" in nm or "box_assume_init" in nm) and len(arrs) == 1:
             return [("one", x) for x in arrs[0].get("elems", [])]
         return [("?", "call %s" % nm)]
+    if k == "BlockExpr" and "tail" in e.get("block", {}):
+        # `{ let mut v = ..; v.push(..); v }`: the value of the block (its locals are locals of fn)
+        return seq_of(fn, e["block"]["tail"], depth + 1, None)
     if k == "Array":
         return [("one", x) for x in e.get("elems", [])]
     l = hir.local_of(e)
